@@ -9,18 +9,23 @@ CONTRACTS = (['bitcoinlib.transactions.Transaction.signature_segwit[in%d-out%d-s
              + ['bitcoinlib.transactions.Transaction.signature_hash[dispatch-tx_%s-arg_%s]' % ab for ab in
                 [('segwit', None), ('segwit', 'segwit'), ('segwit', 'p2sh-segwit'), ('segwit', 'legacy'), ('legacy', None), ('legacy', 'legacy')]]
              + ['bitcoinlib.transactions.Transaction.raw[legacy-anyindex-in%d-sign%d]' % (a, c) for a in (1, 2, 3) for c in range(a)]
+             + ['bitcoinlib.transactions.Transaction.raw[legacy-any-count]', 'bitcoinlib.transactions.Transaction.raw[legacy-multisig-any-count]',
+                'bitcoinlib.transactions.Transaction.signature_segwit[any-count]']
              + ['bitcoinlib.encoding.varstr', 'bitcoinlib.encoding.int_to_varbyteint'] + _script_code())
 LEVEL = 'proof'
 LEVEL_TEXT = ('Transaction.signature_segwit is verified against the BIP143 preimage (every hash-type byte) and Transaction.raw(sign_id, SIGHASH_ALL, '
               'legacy) against the legacy SIGHASH_ALL preimage, for every value of every field (ids, vouts, sequences, amounts up to 21e14, scripts of '
               'any length, version, locktime), and Transaction.signature_hash dispatch (which preimage is hashed for which witness type). '
-              'BOUNDED in the NUMBER of inputs/outputs: one contract case per count (1..3 inputs x 0..3 outputs x every signed index), loops '
-              'unrolled; counts beyond that (and CompactSize count boundaries) rest on the uniform loop body and on C18 for the count prefix. '
+              'ANY NUMBER of inputs and outputs: the loops of Transaction.raw and Transaction.signature_segwit are verified under inductive invariants (the '
+              'accumulators are left folds of the per-element serialisation; element fields are uninterpreted functions of the position) for P2PKH-style and P2SH-multisig '
+              'legacy inputs and for BIP143 with every hash type byte and every signed index - under the precondition that no script is the single byte 00. '
+              'That case (pinned finding F-varstr-00) and the fallback redeemscript := locking_script are covered by the per-count cases (1..3 inputs x 0..3 outputs x '
+              'every signed index, loops unrolled). '
               'The legacy selection of the signed input is also verified for EVERY labelling of the inputs by distinct 32-bit index_n values (the label asked for is only equal to, not the same object as, the stored label: int identity is modelled as implementation-defined outside -5..256). One BIP143 defect (SINGLE/NONE swapped) was repaired; the varstr(00) finding propagates here and is pinned exactly.')
 LEVEL_NOTE = ('SHA-256 uninterpreted; spec/sighash.py is the statement of consensus (BIP143 text, developer reference). The script code per input kind is '
               'verified separately on Input.update_scripts (P2PKH / P2WPKH / P2SH-P2WPKH with one key; P2SH, P2WSH, P2SH-P2WSH multisig with 2 and 3 keys): '
               'the preimage contracts take the stored script as given, the update_scripts contracts show it is the script consensus expects. Object state left by earlier calls is covered only by native stateful contract evaluation (earlier call + in-place edit).')
-NOT_COVERED = ['P2PK and bare multisig script codes; multisig with more than 3 keys in update_scripts', 'more than 3 inputs / outputs (loop bodies are uniform; not proved inductively)',
+NOT_COVERED = ['P2PK and bare multisig script codes; multisig with more than 3 keys in update_scripts', 'transactions with a 00 script AND more than 3 inputs / outputs (the any-count proofs exclude 00 scripts; the per-count cases stop at 3)',
                'legacy hash types other than SIGHASH_ALL (the property names SIGHASH_ALL only)']
 TRUSTED = ['spec/sighash.py', 'sha256 as uninterpreted function', 'varstr effective contract (C18, F-varstr-00 pinned)']
 FUZZ_QUICK = 120
